@@ -271,6 +271,25 @@ def run(ctx):
                         bad = f"make_test_array(func, {idxs})[{i_}](data) != func(data, {col}): {a_[1:]} vs {b_[1:]}"; break
             if bad:
                 ctx.violation("oracle", {"call": "make_test_array", "function": fname, "indices": idxs, "group": group, "response": resp, "issue": bad}, site="TestFunc")
+    # ---- index lists of mixed kinds handed to a user function (column positions together with names / fractions / tuples): every
+    #      test must receive exactly the object that was listed — same type, same value
+    for _ in range(ctx.n(30, 300)):
+        idxs = ctx.rng.choice([[0, 1, "all"], [1, 2.5], [(0, 1), (1, 2)], ["a", 0], [0, None, 1], [0, 1.0, True], [(0,), (1, 2), 3], [1, "1"], [2**40, 0]])
+        got = []
+        def recorder(data, ix, got=got):
+            got.append(ix); return 0.0
+        arr_ = guarded(npc.Experiment.make_test_array, recorder, list(idxs))
+        ctx.case(("mta-mixed", repr(idxs)), True); ctx.count("make_test_array-mixed-index-kinds")
+        bad = None
+        if arr_[0] != "ok" or len(arr_[1]) != len(idxs):
+            bad = "make_test_array failed or returned another number of tests than indices"
+        else:
+            for t_ in arr_[1]:
+                guarded(t_, None)
+            if len(got) != len(idxs) or any(type(a_) is not type(b_) or a_ != b_ for a_, b_ in zip(got, idxs)):
+                bad = f"the tests received {got!r} (types {[type(v).__name__ for v in got]}), listed were {idxs!r}"
+        if bad:
+            ctx.violation("oracle", {"call": "make_test_array", "function": "user function recording its index", "indices": repr(idxs), "issue": bad}, site="TestFunc")
     # ---- calls that fail half-way (after the randomisation loop has started) must leave an Experiment used with in_place=False untouched
     for _ in range(ctx.n(60, 600)):
         n = ctx.rng.randint(4, 8)
